@@ -159,6 +159,15 @@ class Gen:
             attrs["data-chemical-bond"] = "true"
         return mo(text if text is not None else self.op_text(), **attrs)
 
+    def embellished(self, core, depth, levels=None):
+        """an operator under 1-3 levels of scripts / accents (an embellished operator: the parser looks through them)"""
+        out = core
+        for _ in range(levels if levels is not None else self.rng.choice([1, 1, 2, 2, 3])):
+            tag = self.rng.choice(["msup", "msub", "mover", "munder", "msubsup", "munderover"])
+            kids = [out, self.arg(depth - 1)] + ([self.arg(depth - 1)] if tag in ("msubsup", "munderover") else [])
+            out = T(tag, kids)
+        return out
+
     def leaf_operand(self):
         r = self.rng.random()
         if r < 0.55:
@@ -188,6 +197,8 @@ class Gen:
         if r < 0.86:
             tag = self.rng.choice(["msup", "msub", "mover", "munder"])
             base = self.op() if self.rng.random() < 0.25 else self.arg(depth - 1)
+            if self.rng.random() < 0.08:
+                base = self.embellished(self.op(), depth, self.rng.choice([1, 2]))
             return T(tag, [base, self.arg(depth - 1)])
         if r < 0.90:
             tag = self.rng.choice(["msubsup", "munderover"])
@@ -228,7 +239,13 @@ class Gen:
             l, r = self.rng.choice([("(", ")"), ("[", "]"), ("|", "|"), ("{", "}"), ("(", "]"), ("‖", "‖"), ("⟨", "⟩"), ("|", ")")])
             inner = self.seq(depth - 1, max(1, n - 1))
             out = [self.operand(depth)] if self.rng.random() < 0.5 else []
-            out += [self.op(l)] + inner + [self.op(r)]
+            close = self.op(r)
+            if self.rng.random() < 0.35:
+                close = self.embellished(close, depth)      # scripts / accents on the closing fence (one level is lifted onto the group)
+            opn = self.op(l)
+            if self.rng.random() < 0.08:
+                opn = self.embellished(opn, depth, 1)
+            out += [opn] + inner + [close]
             if self.rng.random() < 0.4:
                 out += [self.op(), self.operand(depth)]
         else:                       # anything
@@ -269,6 +286,10 @@ FIXED_ROWS = [
     [mi("sin"), mo("-"), mn("2"), mi("x"), mi("y")],
     [mo("|"), mi("x"), mo("|"), mi("y"), mo("|"), mi("z"), mo("|")],
     [mo("|"), mo(")")],
+    [mo("("), mi("x"), mo("+"), mi("y"), T("msup", [mo(")"), mn("2")])],
+    [mo("("), mi("x"), mo("+"), mi("y"), T("msub", [T("msup", [mo(")"), mn("2")]), mi("k")])],
+    [mo("["), mi("x"), T("msubsup", [T("mover", [mo("]"), mo("~")]), mi("i"), mi("j")])],
+    [mi("f"), mo("("), mi("x"), T("mover", [T("msub", [mo(")"), mn("1")]), mo("^")]), mo("+"), mn("1")],
     [mi("x"), mtext(" "), mo(")")],
     [mn("2"), mn("3"), mo("/"), mn("4")],
     [mn("2"), T("mfrac", [mn("3"), mn("4")])],
